@@ -23,19 +23,20 @@ TARGETS = ['T1', 'T2']
 MC_PROPS = {
     'C01': dict(invariants=['TypeOK'], properties=['C01_Release']),
     'C02': dict(invariants=['TypeOK', 'C03_NoDrop'], properties=['C02_Step']),
-    'C03': dict(invariants=['C03_OneAtATime', 'C03_NoDrop'], properties=['C03_ReplyRecorded', 'C02_Step']),
-    'C04': dict(invariants=['C04_IdleEmpty', 'C04_Progress', 'C04_NoStuck'], properties=['C04_ProgressStep']),
+    'C03': dict(invariants=['C03_OneAtATime', 'C03_NoDrop'], properties=['C03_ReplyRecorded', 'C03_ReleasedWasPending', 'C02_Step']),
+    'C04': dict(invariants=['C04_IdleEmpty', 'C04_Progress', 'C04_NoStuck'], properties=['C04_ProgressStep', 'C04_HeldFlushed']),
     'C05': dict(invariants=['TypeOK'], properties=['C05_Contained']),
 }
 
 
-def consts(algs, programs, maxrun, maxreload=0, pinned=False, targets=None):
+def consts(algs, programs, maxrun, maxreload=0, pinned=False, targets=None, maxfault=0):
     return {
         'Alg': tlc.tla_set(algs),
         'Targets': tlc.tla_set(targets or TARGETS),
         'Programs': '<- ' + programs if programs else '{}',
         'MaxRun': str(maxrun),
         'MaxReload': str(maxreload),
+        'MaxFault': str(maxfault),
         'Pinned': 'TRUE' if pinned else 'FALSE',
     }
 
@@ -95,6 +96,8 @@ def sched_to_events(h):
             evs.append({'ev': 'Run', 'S': sorted(e['S']), 'T': sorted(e['T'])})
         elif e['ev'] == 'Tick':
             evs.append({'ev': 'Tick'})
+        elif e['ev'] == 'TickFault':
+            evs.append({'ev': 'TickFault', 'k': int(e['k'])})
         elif e['ev'] == 'Reply':
             evs.append({'ev': 'Reply', 'alg': e['alg'], 't': e['t'], 'out': e['out'], 'new': sorted(e['new']), 'old': bool(e.get('old', False))})
         elif e['ev'] == 'Reload':
@@ -117,6 +120,13 @@ def parse_scheds(res, maximal_only=False):
                     keep.append(s)
         out = keep
     return out
+
+
+def leaves(scheds):
+    '''executing a schedule (every step is validated) covers all its prefixes: keep the maximal ones'''
+    key = lambda prog, h: json.dumps([prog, h], sort_keys=True)
+    parents = {key(s['prog'], s['h'][:-1]) for s in scheds}
+    return [s for s in scheds if key(s['prog'], s['h']) not in parents]
 
 
 def gen_schedules(chk, name, algs, programs, maxrun, maxreload, timeout=1800):
@@ -144,13 +154,13 @@ def sampled_schedules(chk, name, algs, programs, maxrun, maxreload, rate, focus,
     return parse_scheds(res)
 
 
-def gen_focus_all(chk, programs):
-    cfg = os.path.join(chk.work, 'focus1t_all.cfg')
-    tlc.write_cfg(cfg, spec='GenSpecFocus', constants=consts(ALG3, programs, 3, 0, targets=['T1']), extra=['VIEW View', 'ACTION_CONSTRAINT Emit'])
-    res = tlc.run('Sched_Gen.tla', cfg, workers=1, timeout=1800, out_file=os.path.join(chk.work, 'focus1t_all.out'))
+def gen_focus_all(chk, programs, name='focus1t_all', maxrun=3, maxfault=0):
+    cfg = os.path.join(chk.work, f'{name}.cfg')
+    tlc.write_cfg(cfg, spec='GenSpecFocus', constants=consts(ALG3, programs, maxrun, 0, targets=['T1'], maxfault=maxfault), extra=['VIEW View', 'ACTION_CONSTRAINT Emit'])
+    res = tlc.run('Sched_Gen.tla', cfg, workers=1, timeout=1800, out_file=os.path.join(chk.work, f'{name}.out'))
     if not res.ok:
-        raise core.Machinery(f'generation focus1t_all failed: {res.error or res.violated}')
-    chk.mc_runs.append(dict(res.summary(), name='focus1t_all', module='Sched_Gen.tla', mode='all transitions'))
+        raise core.Machinery(f'generation {name} failed: {res.error or res.violated}')
+    chk.mc_runs.append(dict(res.summary(), name=name, module='Sched_Gen.tla', mode='all transitions'))
     return parse_scheds(res)
 
 
@@ -178,7 +188,7 @@ def validate_and_collect(chk, pid, jobs_by_algs):
             continue
         files = chk.run_harness('sched_h', jobs)
         chk.traces += len(jobs)
-        rows = chk.validate('Sched_Trace.tla', dict(spec='TraceSpec', constants=consts(algs, None, 10**6, 10**6), extra=['POSTCONDITION AllConsumed']), files)
+        rows = chk.validate('Sched_Trace.tla', dict(spec='TraceSpec', constants=consts(algs, None, 10**6, 10**6, maxfault=10**6), extra=['POSTCONDITION AllConsumed']), files)
         byid = {j['id']: j for j in jobs}
         first_stale = {}  # trace id -> first line at which a reply of work released before a reload was delivered
         for fn in files:
@@ -344,6 +354,7 @@ def run(pid, tier, seed, replay=None):
     props = MC_PROPS[pid]
     chk.mc('mc3', 'Sched_MC.tla', dict(spec='Spec', constants=consts(ALG3, 'Programs3Alg', 3 if thorough else 2), **props))
     if thorough:
+        chk.mc('mc3fault', 'Sched_MC.tla', dict(spec='Spec', constants=consts(ALG3, 'Programs3Alg', 2, maxfault=1), **props))
         chk.mc('mc3val', 'Sched_MC.tla', dict(spec='Spec', constants=consts(ALG3, 'Programs3Val', 2), **props))
         chk.mc('mc3reload', 'Sched_MC.tla', dict(spec='Spec', constants=consts(ALG3, 'Programs3Alg', 1, 1), **{k: [x for x in v if x != 'C03_NoDrop' or True] for k, v in props.items()}))
     # 2. GEN
@@ -354,6 +365,11 @@ def run(pid, tier, seed, replay=None):
         scheds = scheds[:1200]
     # deep histories (3 requests, one target): EVERY transition of 3 (quick) / 9 (thorough) focus programs ...
     focus = gen_focus_all(chk, 'Programs3Focus' if thorough else 'Programs3Quick')
+    # dispatch passes cut short by an exception (the code expects rerunid()/the database to throw): every transition of
+    # the 2-request instance with one (quick) / two (thorough) such passes, maximal histories only
+    faulty = leaves(gen_focus_all(chk, 'Programs3Focus' if thorough else 'Programs3Quick', name='fault1t_all', maxrun=2, maxfault=2 if thorough else 1))
+    chk.counters['schedules_with_a_dispatch_fault'] = sum(1 for s in faulty if any(e['ev'] == 'TickFault' for e in s['h']))
+    focus += faulty
     # ... and two targets, sampled
     if thorough:
         focus += sampled_schedules(chk, 'focus3', ALG3, 'Programs3Focus', 3, 0, 100, True)
